@@ -106,8 +106,10 @@ type genOpts struct {
 	ReplicaModes []string // subset of "none","ext","stored"
 	MultiExt     bool     // scripted stores may hold several external label sets / none advertised (C05)
 	ForceKind    string
-	FullCopies   bool // every copy of a series holds all samples of its logical series
-	MaxTSDB      int  // cap on real-TSDB stores (default maxTSDBStores)
+	FullCopies   bool  // every copy of a series holds all samples of its logical series
+	MaxTSDB      int   // cap on real-TSDB stores (default maxTSDBStores)
+	OverlapCuts  bool  // chunks of one copy may overlap in time (scripted stores)
+	StepMs       int64 // spacing of samples in ms (default 1000), jittered by up to +20%
 }
 
 // Label alphabet. The replica label name "r" sorts between series label names ("j" < "r" < "z") so that
@@ -202,10 +204,14 @@ func genDataset(x *simkit.Exec, o genOpts) *dataset {
 		seen[ls.String()] = true
 		n := x.Range("nsamples", 1, o.MaxSamples)
 		var ss []sample
-		t := int64(x.Range("t0", 0, 3)) * 1000
+		step := o.StepMs
+		if step == 0 {
+			step = 1000
+		}
+		t := int64(x.Range("t0", 0, 3)) * step
 		for k := 0; k < n; k++ {
 			ss = append(ss, sample{T: t, V: float64(x.Draw("v", 4)) + float64(i)})
-			t += 1000 + int64(x.Draw("jit", 3))*100
+			t += step + int64(x.Draw("jit", 3))*step/10
 		}
 		ds.Logical = append(ds.Logical, logicalSeries{Lset: ls, Samples: ss})
 	}
@@ -308,9 +314,26 @@ func genDataset(x *simkit.Exec, o genOpts) *dataset {
 				ss := lg.Samples[from:to]
 				var chs []mchunk
 				off := 0
-				for _, n := range cutPattern(len(ss), x.Draw("cuts", 5), o.MaxChunks) {
-					chs = append(chs, mchunk{S: ss[off : off+n]})
+				// overlapping cuts (scripted stores only; a TSDB block cannot hold them in one series, a
+				// store gateway serving overlapping blocks returns exactly this): every chunk but the last
+				// reaches 1-2 samples into its successor, or the second chunk lies inside the first
+				ovl := 0
+				if o.OverlapCuts && st.Kind == kindScripted && x.Bool("overlapcuts", 1, 3) {
+					ovl = x.Range("overlapby", 1, 2)
+				}
+				sizes := cutPattern(len(ss), x.Draw("cuts", 5), o.MaxChunks)
+				for ci, n := range sizes {
+					end := off + n
+					if ovl > 0 && ci < len(sizes)-1 {
+						end = min(len(ss), end+ovl)
+					}
+					chs = append(chs, mchunk{S: ss[off:end]})
 					off += n
+				}
+				if ovl > 0 && len(chs) >= 2 && len(chs[0].S) >= 3 && x.Bool("containedchunk", 1, 3) {
+					// a chunk fully inside its predecessor
+					inner := mchunk{S: chs[0].S[1 : len(chs[0].S)-1]}
+					chs = append(chs[:1], append([]mchunk{inner}, chs[1:]...)...)
 				}
 				st.Series = append(st.Series, mseries{Stored: stored, Ext: ext, Full: mergeLabels(stored, ext), Chunks: chs, Logical: li, Replica: rep})
 			}
